@@ -24,7 +24,7 @@ from harness import core
 from harness import lib_c02c14 as L
 
 FEAT = {"inline": False, "init": True, "unused": True, "func": True, "func_in_body": True, "nested_func": True,
-        "vary": True, "collide": True, "rmax": True, "mixed": True, "generic": True}
+        "vary": True, "collide": True, "rmax": True, "mixed": True, "generic": True, "func_if": True, "ml": True}
 
 
 # ------------------------------------------------------------------ (a) structure of the real build
@@ -59,6 +59,18 @@ def extract_fgraph(spec):
         opset_req = list(opsets.items())
         imports = []
 
+        def req_graph(g):
+            """per node its own `opset_req` and its body graphs (for Func.reqG), from a real Builder run"""
+            b = _build.Builder(g)
+            b.build_main()
+
+            def one(gg):
+                seq = [a._op for a in b.arguments_of[gg]] + [n for n in b.scope_own[gg] if not isinstance(n, Argument)]
+                return {"nodes": [{"req": sorted([d, v] for d, v in n.opset_req),
+                                   "subs": [one(s_) for s_ in n.subgraphs]} for n in seq]}
+
+            return one(b.main)
+
         def graph_json(g):
             b = _build.Builder(g)
             b.build_main()  # the real stages; only arguments_of / scope_own are read afterwards
@@ -70,7 +82,12 @@ def extract_fgraph(spec):
                     subs = list(n.subgraphs)
                     if isinstance(n, Function):
                         proto = n.to_onnx_function(extra_opset_req=opset_req)
+                        try:
+                            rg = req_graph(n.func_graph)
+                        except Exception as e:  # noqa: BLE001
+                            rg = {"unobservable": f"{type(e).__name__}: {e}"}
                         imports.append({
+                            "rgraph": rg,
                             "key": [proto.domain, proto.name],
                             "body": sorted([d, v] for d, v in n.func_graph._get_build_result().opset_req),
                             "model": sorted([d, v] for d, v in graph._get_opset_req()),
@@ -289,6 +306,13 @@ def judge(spec, rng, feeds_first=None):
     out["status"] = st
     if st == "err":
         out["err"] = m
+        # a valid, deterministic program must build: the only documented reason to refuse one is a function
+        # whose body differs between calls
+        may_raise = L.keys_with_differing_bodies(spec)
+        if not ("two different definitions" in m and may_raise):
+            out["fails"].append(("valid-program-rejected",
+                                 f"build raised {m[:260]} although every function is used with one body "
+                                 f"(keys with differing bodies: {may_raise})"))
         return out
     if expected_raise:
         out["fails"].append(("inconsistent-bodies-merged",
@@ -417,6 +441,17 @@ HAND_SPECS = [
      "stmts": [["callg", 0, 0, "f32"], ["callg", 0, 1, "f64"]],
      "outputs": [["z", 2]], "drop": False, "funcs": [], "models": [],
      "generics": [{"name": "g", "domain": "gen.dom", "kind": "mulself"}]},
+    # control flow inside a function body; an ai.onnx.ml operator and a nested function only in the branches
+    {"args": ["f"], "inputs": [["x", 0]],
+     "stmts": [["call", 0, [0]]],
+     "outputs": [["z", 1]], "drop": False,
+     "funcs": [{"name": "outer", "domain": "dom", "nin": 1, "nout": 1,
+                "body": {"stmts": [["op", "pos", 17, [0]],
+                                   ["if", 1, {"stmts": [["op", "binarize", 17, [0]]], "outs": [2]},
+                                    {"stmts": [["call", 1, [0]]], "outs": [2]}, 17]], "outs": [2]}},
+               {"name": "inc", "domain": "demo.inc", "nin": 1, "nout": 1,
+                "body": {"stmts": [["const", [1.0, 1.0]], ["op", "add", 17, [0, 1]]], "outs": [2]}}],
+     "models": []},
     # mixed opset versions inside a function body
     {"args": ["f"], "inputs": [["x", 0]],
      "stmts": [["call", 0, [0]], ["op", "identity", 21, [1]]],
@@ -437,7 +472,7 @@ def run(ck: core.Check):
         ck.broken("correspondence", "C14 driver", str(e))
         drv = None
 
-    n_oracle = ck.pick(800, 6000)
+    n_oracle = ck.pick(700, 6000)
     n_collect = ck.pick(400, 4000)
     n_sem = ck.pick(250, 2500)
     tasks = ([(ck.seed, i, "oracle") for i in range(n_oracle)]
@@ -481,6 +516,10 @@ def run(ck: core.Check):
             if "two different definitions" in r["err"]:
                 dist["expected_raise_and_raised"] += 1
             ck.count(None)
+            for key, what in r["fails"]:  # a valid program that was refused
+                cur = best.get(key)
+                if cur is None or len(json.dumps(spec)) < len(json.dumps(cur[1])):
+                    best[key] = (what, spec, None)
             continue
         dist["returned"] += 1
         dist["runtime"][str(r["runtime"])[:40]] = dist["runtime"].get(str(r["runtime"])[:40], 0) + 1
@@ -490,8 +529,11 @@ def run(ck: core.Check):
             if cur is None or len(json.dumps(spec)) < len(json.dumps(cur[1])):
                 best[key] = (what, spec, r.get("feeds"))
     for key, (what, spec, feeds) in list(best.items())[:6]:
-        def same_failure(s, key=key, feeds=feeds):
-            return any(k == key for k, _ in judge(s, random.Random(0), feeds)["fails"])
+        def same_failure(s, key=key, feeds=feeds, what=what):
+            # (for a refused program: the same exception, so that shrinking cannot drift to another refusal)
+            sig = what[:60] if key == "valid-program-rejected" else None
+            return any(k == key and (sig is None or w[:60] == sig)
+                       for k, w in judge(s, random.Random(0), feeds)["fails"])
 
         try:  # shrink the witness (failure path only)
             small = L.shrink(spec, same_failure, budget=100)
@@ -552,7 +594,26 @@ def run(ck: core.Check):
                 if mism <= 3:
                     ck.broken("correspondence", "C14 function opset imports (max policy)",
                               f"record={rec} model={o}")
-        ck.cov["imports"] = {"distinct_records": len(uniq), "mismatches": mism, "body_req_not_in_model_req": not_sub}
+        # nested requirement collection: Func.reqG over the body's node tree == the body build's opset_req,
+        # and the imports computed from it == the real FunctionProto's
+        withg = [rec for rec in uniq if isinstance(rec.get("rgraph"), dict)]
+        unobs = [rec for rec in withg if "unobservable" in rec["rgraph"]]
+        if unobs:
+            ck.broken("correspondence", "C14 body requirement tree not observable", unobs[0]["rgraph"]["unobservable"][:300])
+        withg = [rec for rec in withg if "unobservable" not in rec["rgraph"]]
+        outs = drv.ask_many("C14", [{"k": "reqs", "g": rec["rgraph"], "model": rec["model"]} for rec in withg])
+        rmism = nested = 0
+        for rec, o in zip(withg, outs):
+            nested += int(any(nd["subs"] for nd in rec["rgraph"]["nodes"]))
+            got_req = sorted(set(map(tuple, o.get("req", [["?", 0]]))))
+            want_req = sorted(set(map(tuple, rec["body"])))
+            if got_req != want_req or sorted(o.get("imports", [])) != rec["real"]:
+                rmism += 1
+                if rmism <= 3:
+                    ck.broken("correspondence", "C14 nested requirement collection / imports of a function body",
+                              f"key={rec['key']} model={json.dumps(o)[:300]} real_req={rec['body']} real_imports={rec['real']}")
+        ck.cov["imports"] = {"distinct_records": len(uniq), "mismatches": mism, "body_req_not_in_model_req": not_sub,
+                             "requirement_trees": len(withg), "with_nested_bodies": nested, "tree_mismatches": rmism}
         # ---- (c) semantics
         sem = [r for r in results if r["mode"] == "sem"]
         outs = drv.ask_many("C14", [{"k": "sem", "prog": r["prog"], "env": r["env"]} for r in sem])
